@@ -147,6 +147,7 @@ def ops_for(t: M.Tbl, r, reduced=False):
             ops += [['feats'], ['label']]
             ops += [['feats_k', kk] for kk in (fk[-1:] if reduced else fk)]
             if not reduced: ops += [['feats_len'], ['feats_keys'], ['feats_eq'], ['tipe'], ['labeled']]
+    if not reduced and t.missing is not None and r is not None and t.missing[r] is not None: ops += [['missing']]
     if len(t.rows) >= 2: ops += [['other']]
     return ops
 
@@ -154,6 +155,7 @@ def ops_for(t: M.Tbl, r, reduced=False):
 def expect(t: M.Tbl, r, op):
     k = op[0]
     V = t.rows[r]
+    if k == 'missing': return t.missing[r]
     if t.kind == 'dense':
         if t.label is not None:
             ind, tipe = t.label
@@ -199,6 +201,7 @@ def access(t: M.Tbl, r, rows, op):
     dense = t.kind == 'dense'
     V = t.rows[r]
     if k in ('i', 'h', 'k'): return row[op[1]]
+    if k == 'missing': return row.missing
     if k == 'list': return list(row)
     if k == 'len': return len(row)
     if k == 'eq': return row == (list(V) if dense else dict(V))
@@ -246,19 +249,20 @@ OPKIND = {'i': 'row[position]', 'h': 'row[header name]', 'k': 'row[key]', 'list'
           'keys': 'row.keys()', 'iter': 'iter(row)', 'feats': 'row.feats', 'feats_i': 'row.feats[position]',
           'feats_k': 'row.feats[key]', 'feats_len': 'len(row.feats)', 'feats_keys': 'row.feats.keys()',
           'feats_eq': 'row.feats == eager feats', 'label': 'row.label', 'tipe': 'row.tipe', 'labeled': 'row.labeled',
-          'other': 'reading the neighbouring row'}
+          'other': 'reading the neighbouring row', 'missing': 'row.missing'}
 
 
 FAMILY = {'i': 'row[position]', 'h': 'row[header name]', 'k': 'row[key]', 'list': 'whole row', 'items': 'whole row',
           'copy': 'whole row', 'eq': 'whole row', 'len': 'len/keys/iter', 'keys': 'len/keys/iter', 'iter': 'len/keys/iter',
           'ne': 'inequality', 'feats': 'feats', 'feats_i': 'feats', 'feats_k': 'feats', 'feats_len': 'feats',
           'feats_keys': 'feats', 'feats_eq': 'feats', 'labeled': 'feats', 'label': 'label', 'tipe': 'label',
-          'other': 'neighbouring row', 'build': 'building the pipeline'}
+          'other': 'neighbouring row', 'build': 'building the pipeline', 'missing': 'missing flag'}
 STAGE_CLASS = {'head': 'Head', 'headmap': 'Head', 'shead': 'Head', 'enc': 'Encode', 'drop': 'Drop', 'label': 'Label', 'cat': 'EncodeCat'}
 SRC_CLASS = {'dl': 'dense lists', 'dc': 'dense lists', 'sk': 'sparse dicts', 'si': 'sparse dicts', 'sc': 'sparse dicts',
              'ad': 'lazy ARFF dense', 'as': 'lazy ARFF sparse', 'aq': 'lazy ARFF dense', 'lz': 'LazyDense rows', 'lzs': 'LazySparse rows',
-             'lzr': 'LazyDense rows', 'ae': 'lazy ARFF dense', 'aes': 'lazy ARFF sparse'}
-SIMPLER_SRC = {'dc': ['dl'], 'aq': ['ad'], 'si': ['sk'], 'sc': ['sk'], 'as': ['sk'], 'lzs': ['sk', 'as'], 'lz': ['ad'], 'lzr': ['lz'], 'ae': ['ad'], 'aes': ['as']}
+             'lzr': 'LazyDense rows', 'ae': 'lazy ARFF dense', 'aes': 'lazy ARFF sparse',
+             'adt': 'lazy ARFF dense', 'aet': 'lazy ARFF dense'}
+SIMPLER_SRC = {'dc': ['dl'], 'aq': ['ad'], 'si': ['sk'], 'sc': ['sk'], 'as': ['sk'], 'lzs': ['sk', 'as'], 'lz': ['ad'], 'lzr': ['lz'], 'ae': ['ad'], 'aes': ['as'], 'adt': ['ad'], 'aet': ['ae', 'adt']}
 
 
 def chain_text(src, stages):
@@ -297,14 +301,14 @@ class C13(Check):
     ID = 'C13'
     LEVEL = 'model_checking'
     ENGINE = 'HIST'
-    RULE = ('cases = (source table, pipeline, output row): 13 sources (dense lists, dense lists with a Categorical column, sparse '
+    RULE = ('cases = (source table, pipeline, output row): 15 sources (dense lists, dense lists with a Categorical column, sparse '
             'dicts with str / int keys / a Categorical entry, ARFF dense, ARFF sparse with default-zero entries, ARFF dense with '
-            'mixed quoting, LazyDense / LazySparse rows wired like ArffReader but with non-idempotent encoders and "?" / "" cells, a LazyDense table with another header order, ARFF dense / sparse tables whose cells are the values the lazy rows special-case: empty string quoted and bare, ?, quoted ?, a nominal level named ?, 0, None in numeric / string / nominal attributes) x every pipeline of <=2 (thorough <=3) stages from the stage alphabet valid for the table shape '
+            'mixed quoting, LazyDense / LazySparse rows wired like ArffReader but with non-idempotent encoders and "?" / "" cells, a LazyDense table with another header order, ARFF dense / sparse tables whose cells are the values the lazy rows special-case: empty string quoted and bare, ?, quoted ?, a nominal level named ?, 0, None in numeric / string / nominal attributes, TAB-separated twins of the dense ARFF tables with the marker ? in a first / middle / last cell) x every pipeline of <=2 (thorough <=3) stages from the stage alphabet valid for the table shape '
             '(HeadRows list / mapping, EncodeRows list / dict by index / dict by header, DropRows cols by index / by name / row '
             'predicate by index / by name / missing, LabelRows by index / by name with c,r,m, EncodeCatRows onehot / '
             'onehot_tuple / string) x every output row, simplest first; inside a case EVERY access history of length <=2 over the '
             'full access alphabet of that row (every position, every header name / key, list, len, ==, !=, copy, items, keys, '
-            'iter, feats (list, every position / key, len, keys, ==), label, tipe, labeled, and reading the '
+            'iter, feats (list, every position / key, len, keys, ==), label, tipe, labeled, row.missing on lazy rows, and reading the '
             'neighbouring row) and every history of length 3 over one representative access per kind is executed on a fresh build of '
             'the real pipeline and every answer is compared with the eager model.  PLUS re-use cases = (table 1, table 2, pipeline valid on both): ONE set of real filter objects is applied to table 1, to a different table 2 '
             '(unheaded / headed / other header order / other names / sparse keyed by name or by column number / the same table for the Categorical ones) and to table 1 again, '
@@ -320,12 +324,13 @@ class C13(Check):
         'row.headers itself is not read by the check (it is exercised through by-name stages and row[name])',
         'a row predicate is evaluated by DropRows on the upstream row; predicates are equality tests on one cell or attrgetter("missing") on ARFF rows',
         'ARFF cell conventions are coba\'s: ? is missing (None) unless the nominal attribute declares a level ?, an empty cell is "" in a string attribute and None in a numeric / nominal one; an encoder that accepts "?" or "" is applied to it',
+        'row.missing of a lazy ARFF row = some cell of the written data line is the bare marker ? (also where a nominal attribute declares a level ?); a row holding a QUOTED ? is left open: its flag is not read and DropRows(missing) is not applied to that table (C12 lists that question)',
         're-use cases contain only stages whose parameters do not depend on one table\'s cells (no cell-equality row predicates); a re-use answer is a violation only if fresh filter objects give the eager answer for the same access',
         '"RuntimeError: generator ignored GeneratorExit" raised inside LazyDense._enc_all when an iteration is abandoned at a ? / "" cell is reported by CPython as unraisable, changes no value and is only counted',
     ]
     TECHNIQUE = ('explicit-state exploration of access histories on one real row object (replay from scratch, no state merging) x '
                  'bounded-exhaustive enumeration of filter pipelines, against an eager plain list/dict reference model')
-    LEVEL_TEXT = ('For every pipeline of <=2 (thorough <=3) row filters over 13 small source tables and every output row, every access '
+    LEVEL_TEXT = ('For every pipeline of <=2 (thorough <=3) row filters over 15 small source tables and every output row, every access '
                   'history of length <=2 over the full access alphabet and of length 3 over one access per kind is executed on freshly '
                   'built real row objects; every answer is compared with the eager table, so both "values equal the eager ones" and '
                   '"no access changes later answers" are decided for every history below the bound; filter objects are additionally re-used across two different tables (table 1, table 2, table 1) and every answer compared with the eager table of its own table.')
